@@ -3,6 +3,7 @@ package checks
 import (
 	"encoding/json"
 	"fmt"
+	"strings"
 	"sync"
 
 	"verif/internal/dec"
@@ -256,14 +257,42 @@ func compareFigures(r *billRun) []figDiff {
 				}
 			}
 		} else {
-			d = append(d, figDiff{p + ".discounts", "lines.discounts.count", fmt.Sprint(len(l.Discounts)), fmt.Sprint(len(rl.Discounts))})
+			// rows that carry nothing (amount zero) are removed by the documented clean-up
+			// of line discounts; they contribute to no figure, so the rest is compared
+			var ra, fa []string
+			for _, x := range l.Discounts {
+				if v := mustD(x.Amount); v.Sign() != 0 {
+					ra = append(ra, v.String())
+				}
+			}
+			for _, x := range rl.Discounts {
+				if x.Amount.Sign() != 0 {
+					fa = append(fa, x.Amount.String())
+				}
+			}
+			if strings.Join(ra, " ") != strings.Join(fa, " ") {
+				d = append(d, figDiff{p + ".discounts", "lines.discounts.count", fmt.Sprint(len(l.Discounts), " ", ra), fmt.Sprint(len(rl.Discounts), " ", fa)})
+			}
 		}
 		if len(l.Charges) == len(rl.Charges) {
 			for j := range l.Charges {
 				cmpFig(&d, fmt.Sprintf("%s.charges[%d].amount", p, j), "lines.charges.amount", sp(l.Charges[j].Amount), &rl.Charges[j].Amount)
 			}
 		} else {
-			d = append(d, figDiff{p + ".charges", "lines.charges.count", fmt.Sprint(len(l.Charges)), fmt.Sprint(len(rl.Charges))})
+			var ra, fa []string
+			for _, x := range l.Charges {
+				if v := mustD(x.Amount); v.Sign() != 0 {
+					ra = append(ra, v.String())
+				}
+			}
+			for _, x := range rl.Charges {
+				if x.Amount.Sign() != 0 {
+					fa = append(fa, x.Amount.String())
+				}
+			}
+			if strings.Join(ra, " ") != strings.Join(fa, " ") {
+				d = append(d, figDiff{p + ".charges", "lines.charges.count", fmt.Sprint(len(l.Charges), " ", ra), fmt.Sprint(len(rl.Charges), " ", fa)})
+			}
 		}
 		if len(l.Breakdown) == len(rl.Breakdown) {
 			for j := range l.Breakdown {
